@@ -243,8 +243,8 @@ def rule_ratioform(ctx: Ctx) -> List[Ob]:
         for w in walk_no_nested(f.node):
             if isinstance(w, ast.Call) and dotted(w.func) == "np.where" and len(w.args) == 3 and \
                     any(isinstance(y, ast.Name) and y.id in ("lb", "ub") for a in w.args[1:] for y in ast.walk(ex.expand_at(w, a))):
-                p = parents.get(id(w))
-                denom = p.right if isinstance(p, ast.BinOp) and isinstance(p.op, ast.Div) and p.left is w else None
+                from .sign import find_denominator
+                denom = find_denominator(f, w, parents)
                 site = w
                 w = ex.expand_at(site, w)
                 denom = ex.expand_at(site, denom) if denom is not None else None
